@@ -25,6 +25,8 @@ theorem tie_h_rest_cron_scheduler_job_go : Extracted.Cron.h_rest_cron_scheduler_
 theorem tie_h_rest_cron_scheduler_entryreader_go : Extracted.Cron.h_rest_cron_scheduler_entryreader_go = Canon.Cron.h_rest_cron_scheduler_entryreader_go := by decide +kernel
 theorem tie_h_rest_cron_persistence_local_flag_store_go : Extracted.Cron.h_rest_cron_persistence_local_flag_store_go = Canon.Cron.h_rest_cron_persistence_local_flag_store_go := by decide +kernel
 theorem tie_h_rest_cron_persistence_local_storage_storage_go : Extracted.Cron.h_rest_cron_persistence_local_storage_storage_go = Canon.Cron.h_rest_cron_persistence_local_storage_storage_go := by decide +kernel
+theorem tie_h_rest_cron_client_client_go : Extracted.Cron.h_rest_cron_client_client_go = Canon.Cron.h_rest_cron_client_client_go := by decide +kernel
+theorem tie_h_rest_cron_dag_parser_go : Extracted.Cron.h_rest_cron_dag_parser_go = Canon.Cron.h_rest_cron_dag_parser_go := by decide +kernel
 
 #print axioms tie_h_cron_run
 #print axioms tie_h_cron_nextTick
@@ -48,5 +50,7 @@ theorem tie_h_rest_cron_persistence_local_storage_storage_go : Extracted.Cron.h_
 #print axioms tie_h_rest_cron_scheduler_entryreader_go
 #print axioms tie_h_rest_cron_persistence_local_flag_store_go
 #print axioms tie_h_rest_cron_persistence_local_storage_storage_go
+#print axioms tie_h_rest_cron_client_client_go
+#print axioms tie_h_rest_cron_dag_parser_go
 
 end BdModel.Tie.Cron
